@@ -366,6 +366,24 @@ def parse_sx(text: str):
     return out
 
 
+def json_of_sx(t) -> Any:
+    """nested lists of a dumped `Json` (driver `showJson`) → Python value"""
+    if t == "null":
+        return None
+    h = t[0]
+    if h == "b":
+        return t[1] == "1"
+    if h == "n":
+        return _num(t[1], t[2])
+    if h == "s":
+        return unhx(t[1])
+    if h == "a":
+        return [json_of_sx(x) for x in t[1:]]
+    if h == "o":
+        return {unhx(kv[0]): json_of_sx(kv[1]) for kv in t[1:]}
+    raise ValueError(f"unknown Json dump {t!r}")
+
+
 def _num(m: str, e: str):
     m, e = int(m), int(e)
     return m if e == 0 else m / (10**e)
